@@ -34,20 +34,18 @@ Print Assumptions C16_decode_encode_decode.
     width members) are below 2^53 ([tms_small]) -- binary64 represents them exactly *)
 Theorem C16_decode_encode_decode_small : forall j t, decodeTMS j = Ok t -> tms_small t ->
   decodeTMS (encodeTMS t) = Ok (norm_tms t).
-Proof. intros j t H S. exact (decode_encode_decode_lemma j t H (tms_small_stable t S)). Qed.
+Proof. exact decode_encode_decode_small_lemma. Qed.
 Print Assumptions C16_decode_encode_decode_small.
 
 (** ... the encoding does not see that identification, so it is stable: encode (decode (encode v)) = encode v ... *)
 Theorem C16_encode_stable : forall j t, decodeTMS j = Ok t -> tms_stable t ->
   exists t', decodeTMS (encodeTMS t) = Ok t' /\ encodeTMS t' = encodeTMS t.
-Proof.
-  intros j t H S. exists (norm_tms t). split; [exact (decode_encode_decode_lemma j t H S)|exact (encode_norm t)].
-Qed.
+Proof. exact encode_stable_lemma. Qed.
 Print Assumptions C16_encode_stable.
 
 (** ... and from the second round on the value itself is a fixed point. *)
 Theorem C16_normal_form_fixed : forall t, norm_tms (norm_tms t) = norm_tms t /\ encodeTMS (norm_tms t) = encodeTMS t.
-Proof. intros t. split; [exact (norm_idem t)|exact (encode_norm t)]. Qed.
+Proof. exact normal_form_fixed_lemma. Qed.
 Print Assumptions C16_normal_form_fixed.
 
 (** every decoded value is well formed: validated, CRS in one of the three forms with a parsable URI resp. a
@@ -88,7 +86,7 @@ Print Assumptions C16_decoded_matrices.
 
 (** F6c: decoding is not total -- a 3-element pointOfOrigin panics inside the decoding library *)
 Theorem C16_refuted_decode_total : exists doc, decodeTMS doc = Panic.
-Proof. exists doc_origin3. exact decode_panics. Qed.
+Proof. exact decode_panics_ex. Qed.
 Print Assumptions C16_refuted_decode_total.
 
 (** F6c: an incomplete point is accepted, the missing coordinate read as 0 *)
@@ -134,10 +132,7 @@ Print Assumptions C16_empty_slice_comes_back_nil.
     unsigned members of its tile matrices are stable (checked by computation through [tms_stableb]) *)
 Theorem C16_builtin_stable : forall name doc, In (name, doc) gen_tms_documents ->
   exists t, decodeTMS doc = Ok t /\ tms_stable t.
-Proof.
-  intros name doc HI. assert (H := builtin_stable_lemma). rewrite forallb_forall in H. specialize (H _ HI). cbn [snd] in H.
-  destruct (decodeTMS doc) as [t| | |]; try discriminate. exists t. split; [reflexivity|apply tms_stableb_spec; exact H].
-Qed.
+Proof. exact builtin_stable_thm. Qed.
 Print Assumptions C16_builtin_stable.
 
 (** the hypotheses of the two partial theorems are met by concrete documents: tileWidth 0 (an error), and the
